@@ -327,3 +327,45 @@ Lemma raw_key_injects : parse_html (render (El s_span [] [] [Raw s_k_i_closed]))
 Proof. vm_compute. reflexivity. Qed.
 Lemma escaped_key_is_text : parse_html (render (El s_span [] [] [Txt s_k_i_closed])) = Some [El s_span [] [] [Txt s_k_i_closed]].
 Proof. vm_compute. reflexivity. Qed.
+
+(* ------------------------------------------------------------------------------------------ *)
+(* normalisation only merges texts: the elements, options and attributes of a tree are unchanged *)
+Section Collect.
+  Context {X : Type} (g : str -> list str -> list (str * str) -> list X).
+  Definition cst (st : list hnode * str) : list X := flat_map (collect g) (fst st).
+
+  Lemma collect_flush : forall st, flat_map (collect g) (flush st) = cst st.
+  Proof.
+    intros [k t]. unfold flush, flush_text, cst. cbn [fst snd].
+    destruct t; [reflexivity|]. rewrite flat_map_app. cbn. now rewrite app_nil_r.
+  Qed.
+
+  Definition absorbs (t : hnode) : Prop := forall st, cst (absorb st t) = cst st ++ collect g t.
+
+  Lemma absorbs_list : forall ts, Forall absorbs ts -> forall st,
+    cst (fold_left absorb ts st) = cst st ++ flat_map (collect g) ts.
+  Proof.
+    induction 1 as [|t ts Ht _ IH]; intros st; cbn [fold_left flat_map]; [now rewrite app_nil_r|].
+    rewrite IH, Ht. now rewrite <- app_assoc.
+  Qed.
+
+  Lemma absorbs_all : forall t, absorbs t.
+  Proof.
+    induction t as [tag opts attrs kids IH|s|s] using hnode_ind'; intros st.
+    - cbn [absorb]. unfold cst at 1. cbn [fst]. rewrite flat_map_app, collect_flush.
+      cbn [flat_map collect]. rewrite app_nil_r, collect_flush, (absorbs_list kids IH). reflexivity.
+    - cbn [absorb collect]. unfold cst. cbn [fst]. now rewrite app_nil_r.
+    - cbn [absorb collect]. unfold cst. cbn [fst]. now rewrite app_nil_r.
+  Qed.
+
+  Lemma collect_normalize : forall ts, flat_map (collect g) (normalize ts) = flat_map (collect g) ts.
+  Proof.
+    intros ts. unfold normalize. rewrite collect_flush, absorbs_list.
+    - reflexivity.
+    - rewrite Forall_forall; intros; apply absorbs_all.
+  Qed.
+End Collect.
+
+Example names_ok_example :
+  names_ok (El s_details [s_open] [(s_class, s_k_i)] [Txt s_k_i_closed; El s_span [] [] [Txt []; Txt s_k]]).
+Proof. reflexivity. Qed.
